@@ -74,6 +74,21 @@ static void *t_release(void *arg)
 	return NULL;
 }
 
+/* mutate: thread 0 (the owner of the node's contents) keeps re-registering the node's userdata/destructor while the others only acquire and release references:
+ * a release that is not the last one has no business looking at the destructor fields */
+static int cb2_count;
+static void del_cb2(struct json_object *o, void *ud) { (void)o; (void)ud; __atomic_add_fetch(&cb2_count, 1, __ATOMIC_RELAXED); }
+static void *t_mutate(void *arg)
+{
+	int me = (int)(intptr_t)arg, i;
+	pthread_barrier_wait(&bar);
+	for (i = 0; i < ITERS; i++) {
+		if (me == 0) json_object_set_userdata(shared[0], (void *)(intptr_t)0, (i & 1) ? del_cb2 : del_cb);
+		else { json_object_get(shared[0]); if (json_object_put(shared[0])) __atomic_add_fetch(&freed_reports, 1, __ATOMIC_RELAXED); }
+	}
+	return NULL;
+}
+
 static void *t_disjoint(void *arg)
 {
 	int me = (int)(intptr_t)arg, i; char key[32];
@@ -143,6 +158,7 @@ int main(int argc, char **argv)
 		fn = t_refcount;
 	} else if (!strcmp(sc, "release")) fn = t_release;
 	else if (!strcmp(sc, "disjoint")) fn = t_disjoint;
+	else if (!strcmp(sc, "mutate")) { shared[0] = json_object_new_string("shared"); json_object_set_userdata(shared[0], (void *)(intptr_t)0, del_cb); fn = t_mutate; }
 	else if (!strcmp(sc, "readers")) { shared[0] = json_tokener_parse("{\"n\":42,\"a\":[1,2,3],\"s\":\"x\"}"); json_object_set_userdata(shared[0], (void *)(intptr_t)0, del_cb); fn = t_readers; }
 	else if (!strcmp(sc, "seed")) fn = t_seed;
 	else { fprintf(stderr, "unknown scenario\n"); return 3; }
@@ -183,6 +199,12 @@ int main(int argc, char **argv)
 		       __atomic_load_n(&premature, __ATOMIC_RELAXED), __atomic_load_n(&freed_reports, __ATOMIC_RELAXED), cb_after_bad);
 	} else if (!strcmp(sc, "disjoint")) {
 		printf("RESULT scenario=disjoint threads=%d iters=%d mismatches=%d\n", NT, ITERS, __atomic_load_n(&premature, __ATOMIC_RELAXED));
+	} else if (!strcmp(sc, "mutate")) {
+		/* every re-registration released the previous one (ITERS callbacks spread over the two destructors); the final put frees the node and fires the last registration once more */
+		int before = __atomic_load_n(&cb_count[0], __ATOMIC_RELAXED) + __atomic_load_n(&cb2_count, __ATOMIC_RELAXED);
+		int r = json_object_put(shared[0]);
+		int after = __atomic_load_n(&cb_count[0], __ATOMIC_RELAXED) + __atomic_load_n(&cb2_count, __ATOMIC_RELAXED);
+		printf("RESULT scenario=mutate threads=%d iters=%d worker_freed=%d final_put=%d callbacks_before=%d expected_before=%d callbacks_at_final_put=%d\n", NT, ITERS, __atomic_load_n(&freed_reports, __ATOMIC_RELAXED), r, before, ITERS, after - before);
 	} else if (!strcmp(sc, "readers")) {
 		int r = json_object_put(shared[0]);
 		printf("RESULT scenario=readers threads=%d iters=%d read_mismatches=%d worker_freed=%d final_put=%d callbacks=%d\n", NT, ITERS, __atomic_load_n(&premature, __ATOMIC_RELAXED), __atomic_load_n(&freed_reports, __ATOMIC_RELAXED), r, __atomic_load_n(&cb_count[0], __ATOMIC_RELAXED));
